@@ -13,7 +13,7 @@ pub fn meta() -> Meta {
     Meta {
         id: "C12",
         level: "exploration",
-        rule: "paired FASTQ read sets through the real SkaDict::new (in-process) against a brute-force count model: genome g of k+2 letters and a variant g' differing in the middle base of the central window, k in {5,9,31,33} (thorough: + 7, 63), both strand modes. Family A (counts): min-count c=1..6 x every multiplicity pair (a,a') in {0,c-1,c,c+1}^2 for the two central k-mers x every split of each multiplicity between file 1 (forward) and file 2 (reverse complement). Family B (quality): c in 1..3, three quality rules x min-qual in {0,1,20,40} x one designated low-quality base (middle, middle-1, first, last of a k-long read; positions 0, h, h+1, k+1 of a (k+2)-long read) with quality in {Q-1,Q,Q+1} on exactly one of the c copies. Family C: N at every position of the long read. Family D: the same through `ska build -f` option parsing. Family E (k in {5,33}; thorough + 7, 31, 63): every multiset of up to three reads drawn from all substrings of length k..k+3, both orientations, of a (k+3)-letter genome and of its one-substitution variant (quick: triples from the genome only), all in file 1 or alternating between the files, c=1..3 (the same k-mer met as first window of one read and as rolled window of another, on either strand); and every pair of such reads with one base of quality Q-1 or Q at every position of the first (k<=7; ends and window middles otherwise; quick: k=5 only), middle and strict rule, c=1..2. One larger data set (~2*10^4 distinct k-mers plus singleton error k-mers) bounds the share of below-threshold k-mers that enter. Non-trivial = the model's dictionary is non-empty or a k-mer sits exactly at a threshold.".into(),
+        rule: "paired FASTQ read sets through the real SkaDict::new (in-process) against a brute-force count model: genome g of k+2 letters and a variant g' differing in the middle base of the central window, k in {5,9,31,33} (thorough: + 7, 63), both strand modes. Family A (counts): min-count c=1..6 x every multiplicity pair (a,a') in {0,c-1,c,c+1}^2 for the two central k-mers x every split of each multiplicity between file 1 (forward) and file 2 (reverse complement). Family B (quality): c in 1..3, three quality rules x min-qual in {0,1,20,40} x one designated low-quality base (middle, middle-1, first, last of a k-long read; positions 0, h, h+1, k+1 of a (k+2)-long read) with quality in {Q-1,Q,Q+1} on exactly one of the c copies. Family C: N at every position of the long read. Family D: the same through `ska build -f` option parsing, and a single FASTQ file given as positional argument or as a two-field list line. Family E (k in {5,33}; thorough + 7, 31, 63): every multiset of up to three reads drawn from all substrings of length k..k+3, both orientations, of a (k+3)-letter genome and of its one-substitution variant (quick: triples from the genome only), all in file 1 or alternating between the files, c=1..3 (the same k-mer met as first window of one read and as rolled window of another, on either strand); and every pair of such reads with one base of quality Q-1 or Q at every position of the first (k<=7; ends and window middles otherwise; quick: k=5 only), middle and strict rule, c=1..2. One larger data set (~2*10^4 distinct k-mers plus singleton error k-mers) bounds the share of below-threshold k-mers that enter. Non-trivial = the model's dictionary is non-empty or a k-mer sits exactly at a threshold.".into(),
         assumptions: vec!["an extra entry would only be acceptable as a counting-filter collision; on these inputs none is expected and any extra is reported".into(), "a sample in which nothing reaches the threshold may be refused".into()],
         exhaustive_when_uncapped: true,
     }
@@ -390,6 +390,49 @@ pub fn run(ctx: &Ctx, rep: &mut Report) {
             let ok = if o.code != 0 { want.is_empty() } else { got_d == want };
             if !ok {
                 rep.violate(format!("D k={k} rc={rc} c={c} Q={q} {}", rule_name(rule)), format!("ska build from reads (exit {}) stores {} k-mers, model {}", o.code, got_d.len(), want.len()), json!({"cli": true, "k": k, "rc": rc, "c": c, "q": q, "rule": rule_name(rule)}));
+            }
+        }
+    }
+    // Family D': a single FASTQ file (positional argument, and a two-field list line): reads, filtered alike
+    for (k, c, q, rule) in [(9usize, 2usize, 20u8, QRule::Middle), (33, 1, 20, QRule::Strict)] {
+        idx += 1;
+        if !ctx.mine(idx) {
+            continue;
+        }
+        let g = repeat_free(k + 2, k, 0, ctx.seed + 12);
+        let mut low: Read = (g.clone(), vec![q + 3; k + 2]);
+        low.1[(k - 1) / 2 + 1] = q - 1; // just below the threshold
+        let files = [vec![low.clone(), (g.clone(), vec![q + 3; k + 2]), rc_read(&(g.clone(), vec![q + 3; k + 2]))], vec![]];
+        let dir = scratch::path("c12cli1");
+        let _ = std::fs::create_dir_all(&dir);
+        std::fs::write(format!("{dir}/solo.fastq"), fastq(&files[0])).unwrap();
+        std::fs::write(format!("{dir}/list1.txt"), "solo\tsolo.fastq\n").unwrap();
+        for rc in [true, false] {
+            let want = read_filter_model(&[files[0].clone(), vec![]], k, rc, c, q, rule);
+            let (ks, cs, qs) = (k.to_string(), c.to_string(), q.to_string());
+            for via_list in [false, true] {
+                rep.evaluations += 1;
+                rep.nontrivial += 1;
+                rep.corner("cli_build_single_fastq");
+                let mut args = vec!["build", "-k", &ks, "-o", "rd1", "--min-count", &cs, "--min-qual", &qs, "--qual-filter", rule_name(rule)];
+                if via_list {
+                    args.extend(["-f", "list1.txt"]);
+                } else {
+                    args.push("solo.fastq");
+                }
+                if !rc {
+                    args.push("--single-strand");
+                }
+                let _ = std::fs::remove_file(format!("{dir}/rd1.skf"));
+                let o = cli::run(&args, &dir, None);
+                let got = cli::run(&["nk", "--full-info", "rd1.skf"], &dir, None);
+                let nk = cli::parse_nk(&got.stdout);
+                let rows = nk.as_ref().map(|n| n.rows.clone()).unwrap_or_default();
+                let got_d: std::collections::BTreeMap<String, u8> = rows.iter().map(|(a, b)| (a.clone(), b[0])).collect();
+                let ok = if o.code != 0 { want.is_empty() } else { got_d == want && nk.as_ref().map_or(false, |n| n.names == vec!["solo".to_string()]) };
+                if !ok {
+                    rep.violate(format!("D1 k={k} rc={rc} c={c} Q={q} {} list={via_list}", rule_name(rule)), format!("ska build from one FASTQ file (exit {}) stores {} k-mers, model {}", o.code, got_d.len(), want.len()), json!({"cli": true, "single": true, "k": k, "rc": rc, "c": c, "q": q, "rule": rule_name(rule)}));
+                }
             }
         }
     }
